@@ -709,6 +709,15 @@ class World:
             ctx.check(bool(obj == obj), "refine", "eq-reflexive", "w == w is False")
             its = list(iter(obj))
             ctx.check(len(its) == dim, "refine", "iter-length", f"iteration yields {len(its)} items")
+            ctx.check((obj == "not a wavefunction") is False, "refine", "eq-foreign", "w == 'str' is not False")
+            for i in ([0, dim - 1, -1] if dim > 1 else [0]):  # element reads through w[i]
+                x, y = obj[i], m.entries[i]
+                if _is_num(y):
+                    xs = np.asarray(x, dtype=object).reshape(-1)
+                    ctx.check(len(xs) == 1 and abs(complex(xs[0]) - complex(y)) <= 1e-12, "refine", "getitem",
+                              f"w[{i}] = {x!r}, model {y!r}")
+                else:
+                    ctx.check(sym_equal(x, y), "refine", "getitem-sym", f"w[{i}] = {x!r}, model {y!r}")
             amps = obj.amplitudes
             ctx.called("Wavefunction readers")
             if not m.free():
